@@ -3872,9 +3872,17 @@ class BoutMesh(Mesh):
             # Create poloidal coordinate which goes from 0 to 2pi in the core region
             theta = deepcopy(y)
             myg = self.user_options.y_boundary_guards
+            # y-boundary guard cells are only present at the start of the arrays if the
+            # first region starts at a wall (not for a periodic, core-only grid)
+            if eq_region0.kind.split(".")[0] == "wall":
+                first_guards = myg
+            else:
+                first_guards = 0
             for t in [theta.centre, theta.xlow, theta.ylow]:
                 # Make zero of theta half a point before the start of the core region
-                t -= theta.ylow[0, numpy.newaxis, jyseps1_1 + myg + 1, numpy.newaxis]
+                t -= theta.ylow[
+                    0, numpy.newaxis, jyseps1_1 + first_guards + 1, numpy.newaxis
+                ]
                 if jyseps2_1 != jyseps1_2:
                     # Has second divertor, subtract y-increment in upper divertor legs
                     # from outer regions to make theta continuous in the core
